@@ -47,6 +47,14 @@ var helperNames = map[string]bool{"expectZeroSize": true, "discardOnKafkaError":
 	"newMessageSetReader": true, "waitResponse": true, "doRequest": true, "do": true, "readOperation": true, "writeOperation": true,
 	"readPartitionsResponse": true, "discardN": true, "read": true}
 
+// recvIdent is the name of the receiver variable ("c" if it has none).
+func recvIdent(fd *ast.FuncDecl) string {
+	if fd.Recv != nil && len(fd.Recv.List) == 1 && len(fd.Recv.List[0].Names) == 1 {
+		return fd.Recv.List[0].Names[0].Name
+	}
+	return "c"
+}
+
 func recvName(fd *ast.FuncDecl) string {
 	if fd.Recv == nil || len(fd.Recv.List) != 1 {
 		return ""
@@ -650,9 +658,10 @@ func mergeIsStrict(dir string) (bool, error) {
 }
 
 // readerStackFacts reads three statements off message_reader.go:
-//  [0] discard(): a loop `for X.parent != nil { X.readerStack = X.parent }` comes before the discardN call;
-//  [1] readMessageV2: `X.remain -= <batch size> - int(<limited reader>.N)` (what the codec consumed, not the batch size);
-//  [2] readMessageV1: `remain = sz - (n - int(<limited reader>.N))`.
+//
+//	[0] discard(): a loop `for X.parent != nil { X.readerStack = X.parent }` comes before the discardN call;
+//	[1] readMessageV2: `X.remain -= <batch size> - int(<limited reader>.N)` (what the codec consumed, not the batch size);
+//	[2] readMessageV1: `remain = sz - (n - int(<limited reader>.N))`.
 func readerStackFacts(file string) ([3]bool, error) {
 	var facts [3]bool
 	fset := token.NewFileSet()
@@ -730,46 +739,211 @@ func readerStackFacts(file string) ([3]bool, error) {
 	return facts, nil
 }
 
-// closesOnNonKafka: the function contains `if !errors.As(err, &X) [&& !errors.Is(err, io.ErrShortBuffer)] { ….Close() }`
-// and no other call of Close on a connection.
-func closesOnNonKafka(fd *ast.FuncDecl, shortBuffer bool) bool {
-	if fd == nil {
-		return false
+func quoteAll(xs []string) string {
+	q := make([]string, len(xs))
+	for i, x := range xs {
+		q[i] = fmt.Sprintf("%q", x)
 	}
-	isNotCall := func(e ast.Expr, fn string) bool {
-		u, ok := e.(*ast.UnaryExpr)
-		if !ok || u.Op != token.NOT {
+	return strings.Join(q, ", ")
+}
+
+// inlineClosers: a method of Conn (other than Close) whose body closes the network connection unconditionally — a
+// top-level statement `recv.conn.Close()` with no return / branch before it — is a "closer"; every call `x.M()` of a
+// closer in the analysed functions is rewritten to `x.conn.Close()`, so that the close rules below see through a helper
+// such as `func (c *Conn) abortRead() { c.conn.Close(); c.rbuf.Discard(…) }`.
+//
+// Returned: dropsBuffer — in do, ApiVersions and Batch.close, every block guarded by `!errors.As(err, &kafkaError)` that
+// closes the connection also drops what is left in the read buffer (`x.rbuf.Discard(x.rbuf.Buffered())`, directly or
+// through the closer): callers already in flight must not be served the rest of the broken response.
+func inlineClosers(fns map[string]*ast.FuncDecl) (dropsBuffer bool) {
+	isDrop := func(c *ast.CallExpr) bool {
+		sel, ok := c.Fun.(*ast.SelectorExpr)
+		return ok && sel.Sel.Name == "Discard" && strings.HasSuffix(exprString(sel.X), ".rbuf") && len(c.Args) == 1 && containsCall(c.Args[0], "Buffered")
+	}
+	plainCall := func(st ast.Stmt) *ast.CallExpr {
+		if es, ok := st.(*ast.ExprStmt); ok {
+			if c, ok := es.X.(*ast.CallExpr); ok {
+				return c
+			}
+		}
+		return nil
+	}
+	closers, closerDrops := map[string]bool{}, map[string]bool{}
+	for name, fd := range fns {
+		if name == "Close" || recvName(fd) != "Conn" || fd.Type.Params.NumFields() != 0 {
+			continue
+		}
+		want := recvIdent(fd) + ".conn.Close"
+		for _, st := range fd.Body.List {
+			c := plainCall(st)
+			if c == nil {
+				break // anything but a plain call before the close: not a closer
+			}
+			if len(c.Args) == 0 && exprString(c.Fun) == want {
+				closers[name] = true
+				break
+			}
+		}
+		if closers[name] {
+			for _, st := range fd.Body.List {
+				if c := plainCall(st); c != nil && isDrop(c) {
+					closerDrops[name] = true
+				}
+			}
+		}
+	}
+	// the blocks that close on non-kafka errors: do they drop the buffer too?
+	dropsBuffer = true
+	for _, name := range []string{"do", "ApiVersions", "Batch.close"} {
+		fd, found := fns[name], false
+		if fd == nil {
 			return false
 		}
-		c, ok := u.X.(*ast.CallExpr)
+		var blks []*ast.BlockStmt
+		switch name {
+		case "ApiVersions":
+			blks = apiVersionsNonKafkaBlocks(fd)
+		case "Batch.close":
+			blks = nonKafkaBlocks(fd, true)
+		default:
+			blks = nonKafkaBlocks(fd, false)
+		}
+		for _, blk := range blks {
+			closes, drops := false, false
+			for _, st := range blk.List {
+				c := plainCall(st)
+				if c == nil {
+					continue
+				}
+				if sel, ok := c.Fun.(*ast.SelectorExpr); ok {
+					switch {
+					case closers[sel.Sel.Name] && len(c.Args) == 0:
+						closes, drops = true, drops || closerDrops[sel.Sel.Name]
+					case sel.Sel.Name == "Close":
+						closes = true
+					case isDrop(c):
+						drops = true
+					}
+				}
+			}
+			if closes {
+				found = true
+				dropsBuffer = dropsBuffer && drops
+			}
+		}
+		dropsBuffer = dropsBuffer && found
+	}
+	for _, fd := range fns {
+		ast.Inspect(fd.Body, func(n ast.Node) bool {
+			c, ok := n.(*ast.CallExpr)
+			if !ok || len(c.Args) != 0 {
+				return true
+			}
+			if sel, ok := c.Fun.(*ast.SelectorExpr); ok && closers[sel.Sel.Name] {
+				c.Fun = &ast.SelectorExpr{X: &ast.SelectorExpr{X: sel.X, Sel: ast.NewIdent("conn")}, Sel: ast.NewIdent("Close")}
+			}
+			return true
+		})
+	}
+	return dropsBuffer
+}
+
+// nonKafkaBlocks: the blocks of a function that run exactly when the error at hand is not an error reported by the
+// broker — the body of `if !errors.As(err, &k) {…}` (without else) and the else block of `if errors.As(err, &k) {…} else
+// {…}`; shortBuffer: the same with io.ErrShortBuffer set apart too (`… && !errors.Is(err, io.ErrShortBuffer)`, or
+// `errors.As(…) || errors.Is(err, io.ErrShortBuffer)` before the else).
+func nonKafkaBlocks(fd *ast.FuncDecl, shortBuffer bool) (blocks []*ast.BlockStmt) {
+	if fd == nil {
+		return nil
+	}
+	isCall := func(e ast.Expr, fn string) bool {
+		c, ok := e.(*ast.CallExpr)
 		if !ok {
 			return false
 		}
 		sel, ok := c.Fun.(*ast.SelectorExpr)
 		return ok && exprString(sel.X) == "errors" && sel.Sel.Name == fn
 	}
-	good, closes := 0, 0
+	isNotCall := func(e ast.Expr, fn string) bool {
+		u, ok := e.(*ast.UnaryExpr)
+		return ok && u.Op == token.NOT && isCall(u.X, fn)
+	}
 	ast.Inspect(fd.Body, func(n ast.Node) bool {
-		switch s := n.(type) {
-		case *ast.IfStmt:
-			cond := s.Cond
-			ok := false
-			if be, is := cond.(*ast.BinaryExpr); is && be.Op == token.LAND && shortBuffer {
-				ok = isNotCall(be.X, "As") && isNotCall(be.Y, "Is") && containsText(be.Y, "io.ErrShortBuffer")
-			} else if !shortBuffer {
-				ok = isNotCall(cond, "As")
+		s, ok := n.(*ast.IfStmt)
+		if !ok {
+			return true
+		}
+		neg, pos := false, false
+		if be, is := s.Cond.(*ast.BinaryExpr); is && shortBuffer {
+			neg = be.Op == token.LAND && isNotCall(be.X, "As") && isNotCall(be.Y, "Is") && containsText(be.Y, "io.ErrShortBuffer")
+			pos = be.Op == token.LOR && isCall(be.X, "As") && isCall(be.Y, "Is") && containsText(be.Y, "io.ErrShortBuffer")
+		} else if !shortBuffer {
+			neg, pos = isNotCall(s.Cond, "As"), isCall(s.Cond, "As")
+		}
+		if neg && s.Else == nil {
+			blocks = append(blocks, s.Body)
+		}
+		if pos {
+			if eb, ok := s.Else.(*ast.BlockStmt); ok {
+				blocks = append(blocks, eb)
 			}
-			if ok && len(s.Body.List) == 1 && s.Else == nil {
-				if es, is := s.Body.List[0].(*ast.ExprStmt); is {
-					if c, is := es.X.(*ast.CallExpr); is {
-						if sel, is := c.Fun.(*ast.SelectorExpr); is && sel.Sel.Name == "Close" {
-							good++
-						}
-					}
+		}
+		return true
+	})
+	return blocks
+}
+
+// apiVersionsNonKafkaBlocks: ApiVersions tests `err != nil && !errors.As(err, &k)` (the error may be nil there)
+func apiVersionsNonKafkaBlocks(fd *ast.FuncDecl) (blocks []*ast.BlockStmt) {
+	blocks = nonKafkaBlocks(fd, false)
+	ast.Inspect(fd.Body, func(n ast.Node) bool {
+		s, ok := n.(*ast.IfStmt)
+		if !ok || s.Else != nil {
+			return true
+		}
+		if be, is := s.Cond.(*ast.BinaryExpr); is && be.Op == token.LAND {
+			if l, is := be.X.(*ast.BinaryExpr); is && l.Op == token.NEQ && exprString(l.Y) == "nil" {
+				if u, is := be.Y.(*ast.UnaryExpr); is && u.Op == token.NOT && containsCall(u.X, "As") {
+					blocks = append(blocks, s.Body)
 				}
 			}
-		case *ast.CallExpr:
-			if sel, ok := s.Fun.(*ast.SelectorExpr); ok && sel.Sel.Name == "Close" {
+		}
+		return true
+	})
+	return blocks
+}
+
+// closesOnNonKafka: the function has exactly one such block, made of plain calls only, exactly one of them a Close (others:
+// e.g. dropping the buffered bytes), and no other call of Close on a connection.
+func closesOnNonKafka(fd *ast.FuncDecl, shortBuffer bool) bool {
+	if fd == nil {
+		return false
+	}
+	good := 0
+	for _, blk := range nonKafkaBlocks(fd, shortBuffer) {
+		n, plain := 0, true
+		for _, st := range blk.List {
+			es, is := st.(*ast.ExprStmt)
+			if !is {
+				plain = false
+				break
+			}
+			if c, is := es.X.(*ast.CallExpr); is {
+				if sel, is := c.Fun.(*ast.SelectorExpr); is && sel.Sel.Name == "Close" {
+					n++
+				}
+			} else {
+				plain = false
+			}
+		}
+		if plain && n == 1 {
+			good++
+		}
+	}
+	closes := 0
+	ast.Inspect(fd.Body, func(n ast.Node) bool {
+		if c, ok := n.(*ast.CallExpr); ok {
+			if sel, ok := c.Fun.(*ast.SelectorExpr); ok && sel.Sel.Name == "Close" {
 				closes++
 			}
 		}
@@ -778,8 +952,47 @@ func closesOnNonKafka(fd *ast.FuncDecl, shortBuffer bool) bool {
 	return good == 1 && closes == 1
 }
 
-// transportDropsFailed: in the request loop of (*conn).run, an `if err != nil { … }` statement that contains a break /
-// return occurs before the first statement that calls releaseConn.
+// batchCloseMindsDiscard: in (*Batch).close the result of `….discard()` (skipping what is left of the response) is
+// assigned — `x := ….discard()`, `x = ….discard()` or the init of an if — and never dropped as a bare call.  (An assigned
+// but unused variable does not compile.)
+func batchCloseMindsDiscard(fd *ast.FuncDecl) bool {
+	if fd == nil {
+		return false
+	}
+	isDiscard := func(e ast.Expr) bool {
+		c, ok := e.(*ast.CallExpr)
+		if !ok {
+			return false
+		}
+		sel, ok := c.Fun.(*ast.SelectorExpr)
+		return ok && sel.Sel.Name == "discard" && len(c.Args) == 0
+	}
+	assigned, dropped := 0, 0
+	ast.Inspect(fd.Body, func(n ast.Node) bool {
+		switch s := n.(type) {
+		case *ast.ExprStmt:
+			if isDiscard(s.X) {
+				dropped++
+			}
+		case *ast.AssignStmt:
+			for i, r := range s.Rhs {
+				if isDiscard(r) {
+					if id, ok := s.Lhs[i].(*ast.Ident); ok && id.Name == "_" {
+						dropped++
+					} else {
+						assigned++
+					}
+				}
+			}
+		}
+		return true
+	})
+	return assigned >= 1 && dropped == 0
+}
+
+// transportDropsFailed: in the request loop of (*conn).run, a test of the error (`if err != nil { … }` or
+// `if err == nil { … } else { … }`) whose error branch contains a break / return occurs before the first statement that
+// calls releaseConn.
 func transportDropsFailed(file string) (bool, error) {
 	fset := token.NewFileSet()
 	f, err := parser.ParseFile(fset, file, nil, 0)
@@ -809,11 +1022,21 @@ func transportDropsFailed(file string) (bool, error) {
 				continue
 			}
 			be, ok := is.Cond.(*ast.BinaryExpr)
-			if !ok || be.Op != token.NEQ || exprString(be.Y) != "nil" {
+			if !ok || exprString(be.Y) != "nil" {
+				continue
+			}
+			// the branch taken on an error: the body of `if err != nil`, the else of `if err == nil`
+			var errBranch ast.Node
+			switch {
+			case be.Op == token.NEQ:
+				errBranch = is.Body
+			case be.Op == token.EQL && is.Else != nil:
+				errBranch = is.Else
+			default:
 				continue
 			}
 			leaves := false
-			ast.Inspect(is.Body, func(n ast.Node) bool {
+			ast.Inspect(errBranch, func(n ast.Node) bool {
 				switch b := n.(type) {
 				case *ast.BranchStmt:
 					leaves = leaves || b.Tok == token.BREAK
@@ -931,6 +1154,8 @@ func extractConnLegacy(repo, root string) error {
 	}
 	x := &clx{funcs: map[string]*ast.FuncDecl{}, structs: map[string]*ast.StructType{}, memo: map[string]string{}, busy: map[string]bool{}}
 	connFns := map[string]*ast.FuncDecl{}
+	var rbufUsers []string                   // every function of the package that touches a Conn's read buffer (`….rbuf`)
+	calledBy := map[string]map[string]bool{} // simple name of a callee → qualified names of the functions calling it
 	for _, fn := range files {
 		base := filepath.Base(fn)
 		if strings.HasSuffix(base, "_test.go") || strings.HasPrefix(base, "verif_") {
@@ -946,6 +1171,38 @@ func extractConnLegacy(repo, root string) error {
 				if dd.Body == nil {
 					continue
 				}
+				touches := false
+				ast.Inspect(dd.Body, func(n ast.Node) bool {
+					if sel, ok := n.(*ast.SelectorExpr); ok && sel.Sel.Name == "rbuf" {
+						touches = true
+					}
+					return !touches
+				})
+				qname := dd.Name.Name
+				if r := recvName(dd); r != "" {
+					qname = r + "." + qname
+				}
+				if touches {
+					rbufUsers = append(rbufUsers, qname)
+				}
+				ast.Inspect(dd.Body, func(n ast.Node) bool {
+					if c, ok := n.(*ast.CallExpr); ok {
+						callee := ""
+						switch f := c.Fun.(type) {
+						case *ast.Ident:
+							callee = f.Name
+						case *ast.SelectorExpr:
+							callee = f.Sel.Name
+						}
+						if callee != "" {
+							if calledBy[callee] == nil {
+								calledBy[callee] = map[string]bool{}
+							}
+							calledBy[callee][qname] = true
+						}
+					}
+					return true
+				})
 				if r := recvName(dd); r != "" {
 					if dd.Name.Name == "readFrom" {
 						x.funcs[r+".readFrom"] = dd
@@ -972,9 +1229,23 @@ func extractConnLegacy(repo, root string) error {
 			}
 		}
 	}
+	dropsBuffer := inlineClosers(connFns)
 	var b strings.Builder
 	b.WriteString("-- GENERATED by /verif/go/extract (connlegacy) from /repo/*.go — do not edit\n")
 	b.WriteString("import KafkaVerif.Model.ConnOps\nimport KafkaVerif.Model.TransportConnC17\nimport KafkaVerif.Model.ReaderStack\nnamespace KV.Gen.ConnLegacy\nopen KV.ConnOps\n\n")
+	sort.Strings(rbufUsers)
+	var ru []string
+	for _, u := range rbufUsers {
+		var cs []string
+		for c := range calledBy[u[strings.LastIndex(u, ".")+1:]] {
+			if c != u {
+				cs = append(cs, c)
+			}
+		}
+		sort.Strings(cs)
+		ru = append(ru, fmt.Sprintf("(%q, [%s])", u, quoteAll(cs)))
+	}
+	fmt.Fprintf(&b, "/-- every function of package kafka that touches a Conn's read buffer (a selector `.rbuf`), with the functions of\nthe package that call it (by simple name) -/\ndef rbufUsers : List (String × List String) := [\n  %s]\n\n", strings.Join(ru, ",\n  "))
 	b.WriteString("-- `readFrom(r *bufio.Reader, size int)` methods\n")
 	var names []string
 	for _, ty := range requiredReadFrom {
@@ -1097,10 +1368,10 @@ func extractConnLegacy(repo, root string) error {
 		return fmt.Errorf("untranslated: %v", err)
 	}
 	b.WriteString("/-- conn.go/batch.go: on which exit paths the Conn's read lock (rlock) is released / handed over -/\n")
-	fmt.Fprintf(&b, "def lockFacts : LockFacts := { peekErr := %v, noProgress := %v, desyncCloses := %v, yield := %v, take := %v, leave := %v, doBody := %v, apiVersions := %v, batchHandover := %v, batchClose := %v }\n\n",
+	fmt.Fprintf(&b, "def lockFacts : LockFacts := { peekErr := %v, noProgress := %v, desyncCloses := %v, yield := %v, take := %v, leave := %v, doBody := %v, apiVersions := %v, batchHandover := %v, batchClose := %v, dropsBuffer := %v }\n\n",
 		wf["peekErr"], wf["noProgress"], wf["desyncCloses"], wf["yield"], wf["take"], wf["leave"], unlockAfter(connFns["do"], "waitResponse", false),
 		unlockAfter(connFns["ApiVersions"], "waitResponse", false), unlockAfter(connFns["ReadBatchWith"], "waitResponse", true),
-		batchCloseUnlocks(connFns["Batch.close"]))
+		batchCloseUnlocks(connFns["Batch.close"]), dropsBuffer)
 	// parsers that are not readFrom methods: read.go fetch headers, conn.go element callbacks
 	b.WriteString("-- read.go readFetchResponseHeaderV2/V5/V10\n")
 	for _, hv := range []string{"V2", "V5", "V10"} {
@@ -1137,7 +1408,17 @@ func extractConnLegacy(repo, root string) error {
 	} else {
 		return fmt.Errorf("untranslated: writeCompressedMessages has no readArrayWith(&c.rbuf, …) call")
 	}
-	if t, after, err := translateApiVersions(connFns["ApiVersions"]); err != nil {
+	avFn := connFns["ApiVersions"]
+	if h := connFns["readApiVersions"]; h != nil {
+		avFn = h
+	}
+	avCloses := false
+	avClose := exprString(&ast.SelectorExpr{X: &ast.SelectorExpr{X: ast.NewIdent(recvIdent(connFns["ApiVersions"])), Sel: ast.NewIdent("conn")}, Sel: ast.NewIdent("Close")})
+	for _, blk := range apiVersionsNonKafkaBlocks(connFns["ApiVersions"]) {
+		avCloses = avCloses || containsText(blk, avClose)
+	}
+	fmt.Fprintf(&b, "/-- conn.go ApiVersions closes the connection on errors that are not kafka errors -/\ndef apiVersionsClosesNonKafka : Bool := %v\n", avCloses)
+	if t, after, err := translateApiVersions(avFn); err != nil {
 		return fmt.Errorf("untranslated: %v", err)
 	} else {
 		fmt.Fprintf(&b, "-- conn.go ApiVersions (v0): the parse after waitResponse; error code checked after the parse: %v\n", after)
@@ -1186,6 +1467,7 @@ func extractConnLegacy(repo, root string) error {
 	fmt.Fprintf(&b, "/-- conn.go ReadBatchWith: at the high watermark (empty reader) the message set of the response is discarded -/\ndef fetchSkipsAtWatermark : Bool := %v\n\n", skips)
 	// which errors close the connection: `if !errors.As(err, &kafkaError) { c.conn.Close() }` in do,
 	// `if !errors.As(err, &kafkaError) && !errors.Is(err, io.ErrShortBuffer) { conn.Close() }` in Batch.close
+	fmt.Fprintf(&b, "/-- (*Batch).close uses the result of msgs.discard(): a response whose rest cannot be skipped does not end in a kept Conn -/\ndef batchCloseMindsDiscard : Bool := %v\n\n", batchCloseMindsDiscard(connFns["Batch.close"]))
 	fmt.Fprintf(&b, "/-- (*Conn).do / (*Batch).close close the connection exactly on errors that are not kafka errors (Batch: nor io.ErrShortBuffer) -/\ndef doClosesNonKafka : Bool := %v\ndef batchClosesNonKafka : Bool := %v\n\n",
 		closesOnNonKafka(connFns["do"], false), closesOnNonKafka(connFns["Batch.close"], true))
 	b.WriteString("def callsOf (m : String) : List String := ((calls.find? (·.1 == m)).map (·.2)).getD []\n")
